@@ -112,14 +112,18 @@ def objFor (remember : Bool) (slot : Slot) (given : HistV2) : HistV2 :=
   | true, some (k, o) => if k = given then o else given
   | _, _ => given
 
+/-- the slot after a call that raised: it is only rewritten when a turn completed — but if the call
+    worked on the remembered object, that object has been mutated in place -/
+def slotAfterRaise (remember : Bool) (slot : Slot) (given obj' : HistV2) : Slot :=
+  match remember, slot with
+  | true, some (k, o) => if k = given then some (k, obj') else some (k, o)
+  | _, _ => slot
+
 /-- `LLMRails.generate_async(messages=[user], state=given)` -/
 def callV2 (remember : Bool) (cfg : Cfg) (slot : Slot) (given : HistV2) (t : Turn) (f : Fault) : CallOut :=
   let r := runObjV2 cfg (objFor remember slot given) t f
   if r.2.1.raised then
-    { steps := r.1, reply := r.2.1, saved := none, obj := r.2.2,
-      slot := match remember, slot with
-        | true, some (k, o) => if k = given then some (k, r.2.2) else some (k, o)  -- the remembered object WAS the one mutated
-        | _, _ => slot }
+    { steps := r.1, reply := r.2.1, saved := none, obj := r.2.2, slot := slotAfterRaise remember slot given r.2.2 }
   else
     { steps := r.1, reply := r.2.1, saved := some r.2.2, obj := r.2.2,
       slot := if remember then some (r.2.2, r.2.2) else slot }
